@@ -13,9 +13,13 @@
           model Core/AppEvents.release_key
      1050 = 1003 inside the window of finding C10-completed-live-alloc (DESIGN 7 #13)
      1052 = 1004 inside the same window (the outstanding ask is the real half of the swap being confirmed)
-     1051 = 1004 inside the window of finding C10-completed-outstanding-swap (DESIGN 7 #17) *)
+     1051 = 1004 inside the window of finding C10-completed-outstanding-swap (DESIGN 7 #17)
+     1053 = 1003 where the applications' own lists are clean and every allocation a node still lists belongs to an
+            application that was hit earlier in the history by accounting trigger 5 (Core/Ledger.v xnode_removal_trigger:
+            a cross-node in-flight real allocation orphaned on its node by application / all-allocations / ask removal):
+            the orphan outlives the application (finding C10-orphaned-inflight-real, same defect as C03 trigger 5) *)
 From Coq Require Import List ZArith NArith Bool.
-From YK Require Import Base.Res Core.Obs Core.AppLife Core.AppEvents.
+From YK Require Import Base.Res Core.Obs Core.AppLife Core.AppEvents Core.Ledger.
 Import ListNotations.
 Open Scope N_scope.
 
@@ -219,13 +223,23 @@ Definition flag (idx kind : N) (ok : bool) : list (N * N) := if ok then [] else 
 (* a state clause is reported at the step that breaks it (pre-state fine, post-state not) *)
 Definition newly (f : ostate -> bool) (pre post : ostate) : bool := negb (f pre) || f post.
 
-Definition c10_step (idx : N) (pre : ostate) (m : list (N * N)) (st : ostep) : list (N * N) * list (N * N) :=
+(* applications hit by trigger 5 so far: the application the removing operation addresses *)
+Definition orphaned_app (pre : ostate) (st : ostep) : list N :=
+  if xnode_removal_trigger pre st then
+    match st_op st with OpAppRemove id => [id] | OpRelease app _ _ => [app] | _ => [] end
+  else [].
+Definition window_orphan (orph : list N) (post : ostate) : bool :=
+  forallb completed_self_clean (s_apps post ++ s_completed post) &&
+  forallb (fun x => memN (oa_app x) orph) (completed_node_allocs post).
+
+Definition c10_step (idx : N) (pre : ostate) (m : list (N * N)) (orph : list N) (st : ostep) : list (N * N) * list (N * N) :=
   let post := st_obs st in
   let '(m', sok) := stream_step pre m st in
   (m',
    flag idx 1001 (newly statelogs_ok pre post) ++
    flag idx 1002 (sok && updates_match_state st) ++
-   (if newly completed_clean pre post then [] else [(idx, if window_13 pre st then 1050 else 1003)]) ++
+   (if newly completed_clean pre post then []
+    else [(idx, if window_13 pre st then 1050 else if window_orphan orph post then 1053 else 1003)]) ++
    (if completed_no_outstanding pre st then [] else [(idx, if window_13b pre st then 1052 else if window_17 pre st then 1051 else 1004)]) ++
    flag idx 1005 (idle_completing pre st) ++
    flag idx 1006 (idle_completes pre st) ++
@@ -233,14 +247,16 @@ Definition c10_step (idx : N) (pre : ostate) (m : list (N * N)) (st : ostep) : l
    flag idx 1008 (terminated_rejects pre st) ++
    flag idx 1091 (release_model_ok pre st)).
 
-Fixpoint c10_steps (base : N) (i : N) (pre : ostate) (m : list (N * N)) (l : list ostep) : list (N * N) :=
+Fixpoint c10_steps (base : N) (i : N) (pre : ostate) (m : list (N * N)) (orph : list N) (l : list ostep) : list (N * N) :=
   match l with
   | [] => []
-  | st :: t => let '(m', out) := c10_step (base + i) pre m st in out ++ c10_steps base (i + 1) (st_obs st) m' t
+  | st :: t =>
+      let orph' := orphaned_app pre st ++ orph in
+      let '(m', out) := c10_step (base + i) pre m orph' st in out ++ c10_steps base (i + 1) (st_obs st) m' orph' t
   end.
 
 Definition c10_history (hi : N) (h : ohistory) : list (N * N) :=
-  flag (hi * 1000) 1001 (statelogs_ok (h_init h)) ++ c10_steps (hi * 1000) 0 (h_init h) [] (h_steps h).
+  flag (hi * 1000) 1001 (statelogs_ok (h_init h)) ++ c10_steps (hi * 1000) 0 (h_init h) [] [] (h_steps h).
 
 Fixpoint c10_all (hi : N) (cs : list ohistory) : list (N * N) :=
   match cs with [] => [] | h :: t => c10_history hi h ++ c10_all (hi + 1) t end.
